@@ -96,7 +96,8 @@ Qed.
 Lemma ThrOK_at_pc i w0 w th p : ThrOK i w0 th -> (w0 = w \/ w0 = 0%N) ->
   (forall x, In x (pend i (at_pc th p)) -> x <> 0%N -> x = w) -> ThrOK i w (at_pc th p).
 Proof.
-  intros Hok Hw H2. assert (Hok' : ThrOK i w th) by (destruct Hw as [<-|->]; [exact Hok|now apply ThrOK_zero]).
+  intros Hok Hw H2. assert (Hok' : ThrOK i w th).
+  { destruct Hw as [Hw|Hw]; [now rewrite <- Hw|rewrite Hw in Hok; now apply ThrOK_zero]. }
   destruct Hok' as (H1 & _ & H3). split; [exact H1|]. split; [exact H2|exact H3].
 Qed.
 
@@ -133,9 +134,9 @@ Proof.
             (forall x, In x (pend i (at_pc th p)) -> x <> 0%N -> x = nth i (set_nth (g_slots c) j v) 0%N) ->
             Inv i (with_slot_thr c j v t (at_pc th p))).
   { intros j v p Hj Hp. unfold with_slot_thr. eapply inv_update; eauto; [apply set_nth_length| |].
-    - destruct (Nat.eq_dec j i) as [->|Hne]; [right; now apply Hj|left; now apply nth_set_nth_other].
+    - destruct (Nat.eq_dec j i) as [->|Hne]; [right; now apply Hj|left; unfold slot; apply nth_set_nth_other; congruence].
     - eapply ThrOK_at_pc; eauto.
-      destruct (Nat.eq_dec j i) as [->|Hne]; [right; now apply Hj|left; symmetry; now apply nth_set_nth_other]. }
+      destruct (Nat.eq_dec j i) as [->|Hne]; [right; now apply Hj|left; unfold slot; symmetry; apply nth_set_nth_other; congruence]. }
   unfold with_thr, with_lock_thr.
   destruct (c_pc th) eqn:Hpc; destruct (c_ops th) as [|[j v old|j v|j] rest] eqn:Hop;
     try (apply Hmove; unfold pend, at_pc; cbn [c_pc c_ops]; rewrite ?Hop; intros x []; fail);
@@ -144,10 +145,10 @@ Proof.
     destruct (slot c j =? old)%N eqn:E.
     + apply N.eqb_eq in E. apply Hwrite.
       * intros ->. inversion Hops as [|? ? Ho _]; subst. destruct (Ho eq_refl) as [Hold _]. congruence.
-      * unfold pend, at_pc. cbn [c_pc c_ops]. rewrite Hop. destruct (j =? i) eqn:Eji; [|intros x []].
+      * unfold pend, at_pc. cbn [c_pc c_ops]. rewrite ?Hop. destruct (j =? i) eqn:Eji; [|intros x []].
         apply Nat.eqb_eq in Eji. subst j. intros x [<-|[]] _. rewrite nth_set_nth by exact Hlen.
         now rewrite Nat.eqb_refl.
-    + apply Hmove. unfold pend, at_pc. cbn [c_pc c_ops]. rewrite Hop. destruct (j =? i) eqn:Eji; [|intros x []].
+    + apply Hmove. unfold pend, at_pc. cbn [c_pc c_ops]. rewrite ?Hop. destruct (j =? i) eqn:Eji; [|intros x []].
       apply Nat.eqb_eq in Eji. subst j. intros x [<-|[]] _. reflexivity.
   - (* PT2, CT: return *)
     apply Hfin. cbn [res_slot res_val]. intros -> Hr. apply Hpend; [|exact Hr].
@@ -155,49 +156,220 @@ Proof.
   - (* PS0, CS: never on slot i *)
     apply Hwrite.
     + intros ->. inversion Hops as [|? ? Ho _]; subst. cbn in Ho. congruence.
-    + unfold pend, at_pc. cbn [c_pc c_ops]. rewrite Hop. intros x [].
+    + unfold pend, at_pc. cbn [c_pc c_ops]. rewrite ?Hop. intros x [].
   - (* PS1, CS: return *)
     apply Hfin. cbn [res_slot res_val]. intros ->. inversion Hops as [|? ? Ho _]; subst. cbn in Ho. congruence.
   - (* PG0, CG: read *)
-    apply Hmove. unfold pend, at_pc. cbn [c_pc c_ops]. rewrite Hop. destruct (j =? i) eqn:Eji; [|intros x []].
+    apply Hmove. unfold pend, at_pc. cbn [c_pc c_ops]. rewrite ?Hop. destruct (j =? i) eqn:Eji; [|intros x []].
     apply Nat.eqb_eq in Eji. subst j. intros x [<-|[]] _. reflexivity.
   - (* PG1, CG *)
     destruct (ret =? 0)%N eqn:E.
-    + apply Hmove. unfold pend, at_pc. cbn [c_pc c_ops]. rewrite Hop. intros x [].
+    + apply Hmove. unfold pend, at_pc. cbn [c_pc c_ops]. rewrite ?Hop. intros x [].
     + apply Hfin. cbn [res_slot res_val]. intros -> Hr. apply Hpend; [|exact Hr].
       unfold pend. rewrite Hpc, Hop, Nat.eqb_refl. now left.
   - (* PG2 with no op: cannot happen, any op: the list lock *)
     destruct (g_lock c).
     + eapply inv_update; eauto. split; [exact Hops|]. split; [|exact Hres].
-      unfold pend. cbn [c_pc c_ops]. rewrite Hop. intros x [].
-    + apply Hmove. unfold pend, at_pc. cbn [c_pc c_ops]. rewrite Hop. intros x [].
+      unfold pend. cbn [c_pc c_ops]. rewrite ?Hop. intros x [].
+    + apply Hmove. unfold pend, at_pc. cbn [c_pc c_ops]. rewrite ?Hop. intros x [].
   - destruct (g_lock c).
     + eapply inv_update; eauto. split; [exact Hops|]. split; [|exact Hres].
-      unfold pend. cbn [c_pc c_ops]. rewrite Hop. intros x [].
-    + apply Hmove. unfold pend, at_pc. cbn [c_pc c_ops]. rewrite Hop. intros x [].
+      unfold pend. cbn [c_pc c_ops]. rewrite ?Hop. intros x [].
+    + apply Hmove. unfold pend, at_pc. cbn [c_pc c_ops]. rewrite ?Hop. intros x [].
   - destruct (g_lock c).
     + eapply inv_update; eauto. split; [exact Hops|]. split; [|exact Hres].
-      unfold pend. cbn [c_pc c_ops]. rewrite Hop. intros x [].
-    + apply Hmove. unfold pend, at_pc. cbn [c_pc c_ops]. rewrite Hop. intros x [].
+      unfold pend. cbn [c_pc c_ops]. rewrite ?Hop. intros x [].
+    + apply Hmove. unfold pend, at_pc. cbn [c_pc c_ops]. rewrite ?Hop. intros x [].
   - destruct (g_lock c).
     + eapply inv_update; eauto. split; [exact Hops|]. split; [|exact Hres].
-      unfold pend. cbn [c_pc c_ops]. rewrite Hop. intros x [].
-    + apply Hmove. unfold pend, at_pc. cbn [c_pc c_ops]. rewrite Hop. intros x [].
+      unfold pend. cbn [c_pc c_ops]. rewrite ?Hop. intros x [].
+    + apply Hmove. unfold pend, at_pc. cbn [c_pc c_ops]. rewrite ?Hop. intros x [].
   - (* PG3, CG: unlock, constructor *)
     destruct ((fst (nth j (g_infos c) (0%N, false)) =? 0)%N || (fst (nth j (g_infos c) (0%N, false)) =? 1)%N).
     + apply Hfin. cbn [res_slot res_val]. intros _ Hr. now elim Hr.
     + eapply inv_update; eauto. split; [exact Hops|]. split; [|exact Hres].
-      unfold pend. cbn [c_pc c_ops]. rewrite Hop. intros x [].
+      unfold pend. cbn [c_pc c_ops]. rewrite ?Hop. intros x [].
   - (* PG5, CG: the CAS against NULL *)
     destruct (slot c j =? 0)%N eqn:E.
     + apply N.eqb_eq in E. apply Hwrite.
       * now intros ->.
-      * unfold pend, at_pc. cbn [c_pc c_ops]. rewrite Hop. destruct (j =? i) eqn:Eji; [|intros x []].
+      * unfold pend, at_pc. cbn [c_pc c_ops]. rewrite ?Hop. destruct (j =? i) eqn:Eji; [|intros x []].
         apply Nat.eqb_eq in Eji. subst j. intros x [<-|[]] _. rewrite nth_set_nth by exact Hlen.
         now rewrite Nat.eqb_refl.
-    + apply Hmove. unfold pend, at_pc. cbn [c_pc c_ops]. rewrite Hop. destruct (j =? i) eqn:Eji; [|intros x []].
+    + apply Hmove. unfold pend, at_pc. cbn [c_pc c_ops]. rewrite ?Hop. destruct (j =? i) eqn:Eji; [|intros x []].
       apply Nat.eqb_eq in Eji. subst j. intros x [<-|[]] _. reflexivity.
   - (* PG6, CG: return *)
     apply Hfin. cbn [res_slot res_val]. intros -> Hr. apply Hpend; [|exact Hr].
     unfold pend. rewrite Hpc, Hop, Nat.eqb_refl. now left.
 Qed.
+
+(* ---- every schedule ------------------------------------------------------------------------ *)
+Lemma crun_Inv i sched : forall c, Inv i c -> Inv i (crun c sched).
+Proof. unfold crun. apply fold_left_inv. intros c t. apply cstep_Inv. Qed.
+
+Lemma nth_error_map_thr0 progs u th : nth_error (map thr0 progs) u = Some th ->
+  exists p, In p progs /\ th = thr0 p.
+Proof.
+  revert u; induction progs as [|p l IH]; intros [|u] H; cbn in H; try discriminate.
+  - inversion H. exists p. split; [now left|reflexivity].
+  - destruct (IH u H) as (q & Hq & E). exists q. split; [now right|exact E].
+Qed.
+
+Lemma cinit_Inv i infos progs : i < length infos -> (forall p, In p progs -> Forall (once_op i) p) ->
+  Inv i (cinit infos progs).
+Proof.
+  intros Hi Hp. split; cbn [cinit g_slots g_thr]; [now rewrite repeat_length|].
+  intros u th H. destruct (nth_error_map_thr0 _ _ _ H) as (p & Hin & ->).
+  split; [exact (Hp p Hin)|]. split; cbn; intros ? [].
+Qed.
+
+(* all callers of a publish-once slot agree with the slot *)
+Lemma P_conc_agreement infos progs sched i :
+  i < length infos -> (forall p, In p progs -> Forall (once_op i) p) ->
+  let c := crun (cinit infos progs) sched in
+  forall u th r, nth_error (g_thr c) u = Some th -> In r (c_res th) ->
+    res_slot r = i -> res_val r <> 0%N -> res_val r = slot c i.
+Proof.
+  intros Hi Hp c u th r Hth Hr. destruct (crun_Inv i sched _ (cinit_Inv i infos progs Hi Hp)) as [_ Hall].
+  destruct (Hall u th Hth) as (_ & _ & H3). now apply H3.
+Qed.
+
+(* at most one winner: two completed calls that both returned their own value brought the same value *)
+Lemma P_conc_single_winner infos progs sched i :
+  i < length infos -> (forall p, In p progs -> Forall (once_op i) p) ->
+  let c := crun (cinit infos progs) sched in
+  forall u1 th1 r1 u2 th2 r2,
+    nth_error (g_thr c) u1 = Some th1 -> In r1 (c_res th1) -> res_slot r1 = i ->
+    nth_error (g_thr c) u2 = Some th2 -> In r2 (c_res th2) -> res_slot r2 = i ->
+    res_val r1 = res_own r1 -> res_own r1 <> 0%N -> res_val r2 = res_own r2 -> res_own r2 <> 0%N ->
+    res_own r1 = res_own r2.
+Proof.
+  intros Hi Hp c u1 th1 r1 u2 th2 r2 H1 I1 S1 H2 I2 S2 W1 N1 W2 N2.
+  pose proof (P_conc_agreement infos progs sched i Hi Hp u1 th1 r1 H1 I1 S1) as A1.
+  pose proof (P_conc_agreement infos progs sched i Hi Hp u2 th2 r2 H2 I2 S2) as A2.
+  cbv zeta in A1, A2. rewrite <- W1, <- W2. rewrite A1, A2 by congruence. reflexivity.
+Qed.
+
+(* ---- constructed objects --------------------------------------------------------------------- *)
+Definition res_ok (infos : list (N * bool)) (x : cres) : Prop :=
+  match x with
+  | RG j r made dead =>
+      if (made =? 0)%N then dead = []
+      else r <> 0%N /\ dead = (if negb (r =? made)%N && snd (nth j infos (0%N, false)) then [made] else [])
+  | _ => True
+  end.
+Definition pc_ok (p : cpc) : Prop :=
+  match p with
+  | PG4 nio | PG5 nio => nio <> 0%N
+  | PG6 nio r => nio <> 0%N /\ r <> 0%N
+  | _ => True
+  end.
+Definition GOK infos (th : cthr) : Prop := pc_ok (c_pc th) /\ Forall (res_ok infos) (c_res th).
+Definition GInv infos (c : ccfg) : Prop :=
+  g_infos c = infos /\ forall u th, nth_error (g_thr c) u = Some th -> GOK infos th.
+
+Lemma ginv_update infos c t th th' slots' lock' :
+  GInv infos c -> nth_error (g_thr c) t = Some th -> GOK infos th' ->
+  GInv infos {| g_slots := slots'; g_lock := lock'; g_infos := g_infos c; g_thr := set_nth (g_thr c) t th' |}.
+Proof.
+  intros [Hi Hall] Ht Hth'. split; [exact Hi|]. cbn [g_thr]. intros u x.
+  rewrite (nth_error_set_nth _ _ _ _ _ Ht). destruct (u =? t); [intros H; inversion H; now subst|apply Hall].
+Qed.
+
+Lemma GOK_finish infos th r : GOK infos th -> res_ok infos r -> GOK infos (finish th r).
+Proof.
+  intros [_ H2] Hr. split.
+  - cbn [finish c_pc]. destruct (tl (c_ops th)); exact I.
+  - cbn [finish c_res]. now constructor.
+Qed.
+
+Lemma cstep_GInv infos c t : GInv infos c -> GInv infos (cstep c t).
+Proof.
+  intros HG. pose proof HG as [Hinf Hall]. unfold cstep.
+  destruct (nth_error (g_thr c) t) as [th|] eqn:Ht; [|exact HG].
+  pose proof (Hall t th Ht) as [Hpc Hres].
+  assert (Hmove : forall p slots' lock', pc_ok p ->
+            GInv infos {| g_slots := slots'; g_lock := lock'; g_infos := g_infos c;
+                          g_thr := set_nth (g_thr c) t (at_pc th p) |}).
+  { intros p slots' lock' Hp. eapply ginv_update; eauto. split; [exact Hp|exact Hres]. }
+  assert (Hfin : forall r lock', res_ok infos r ->
+            GInv infos {| g_slots := g_slots c; g_lock := lock'; g_infos := g_infos c;
+                          g_thr := set_nth (g_thr c) t (finish th r) |}).
+  { intros r lock' Hr. eapply ginv_update; eauto. apply GOK_finish; [split; assumption|exact Hr]. }
+  unfold with_thr, with_lock_thr, with_slot_thr.
+  destruct (c_pc th) eqn:Epc; destruct (c_ops th) as [|[j v old|j v|j] rest] eqn:Hop;
+    try (apply Hmove; exact I); try exact HG; try (apply Hfin; exact I); cbn [pc_ok] in Hpc.
+  - destruct (slot c j =? old)%N; apply Hmove; exact I.
+  - destruct (ret =? 0)%N; [apply Hmove; exact I|apply Hfin; reflexivity].
+  - destruct (g_lock c); [|apply Hmove; exact I]. eapply ginv_update; eauto. split; [exact I|exact Hres].
+  - destruct (g_lock c); [|apply Hmove; exact I]. eapply ginv_update; eauto. split; [exact I|exact Hres].
+  - destruct (g_lock c); [|apply Hmove; exact I]. eapply ginv_update; eauto. split; [exact I|exact Hres].
+  - destruct (g_lock c); [|apply Hmove; exact I]. eapply ginv_update; eauto. split; [exact I|exact Hres].
+  - destruct ((fst (nth j (g_infos c) (0%N, false)) =? 0)%N || (fst (nth j (g_infos c) (0%N, false)) =? 1)%N).
+    + apply Hfin. reflexivity.
+    + eapply ginv_update; eauto. split; [apply mkobj_nonzero|exact Hres].
+  - apply Hmove. exact Hpc.
+  - apply Hmove. exact Hpc.
+  - apply Hmove. exact Hpc.
+  - apply Hmove. exact Hpc.
+  - destruct (slot c j =? 0)%N eqn:E; apply Hmove; cbn [pc_ok]; [tauto|].
+    split; [exact Hpc|now apply N.eqb_neq].
+  - destruct Hpc as [Hn Hr]. apply Hfin. cbn [res_ok]. apply N.eqb_neq in Hn. rewrite Hn.
+    split; [exact Hr|]. now rewrite Hinf.
+Qed.
+
+Lemma cinit_GInv infos progs : GInv infos (cinit infos progs).
+Proof.
+  split; [reflexivity|]. cbn [cinit g_thr]. intros u th H.
+  destruct (nth_error_map_thr0 _ _ _ H) as (p & _ & ->). split; [exact I|constructor].
+Qed.
+
+(* an object built by a constructor during a get is the value returned, or it lost the
+   test-and-set against NULL and is destructed exactly when the info has a destructor;
+   nothing is destructed otherwise; a get that built an object never returns NULL *)
+Lemma P_conc_objects infos progs sched u th j r made dead :
+  nth_error (g_thr (crun (cinit infos progs) sched)) u = Some th -> In (RG j r made dead) (c_res th) ->
+  (made = 0%N -> dead = []) /\
+  (made <> 0%N -> r <> 0%N /\ (r = made -> dead = []) /\
+                  (r <> made -> dead = if snd (nth j infos (0%N, false)) then [made] else [])).
+Proof.
+  intros Hth Hin.
+  assert (HG : GInv infos (crun (cinit infos progs) sched)).
+  { unfold crun. apply fold_left_inv; [intros c t; apply cstep_GInv|apply cinit_GInv]. }
+  destruct HG as [_ Hall]. destruct (Hall u th Hth) as [_ Hres].
+  rewrite Forall_forall in Hres. specialize (Hres _ Hin). cbn [res_ok] in Hres.
+  destruct (made =? 0)%N eqn:E.
+  - apply N.eqb_eq in E. split; [intros _; exact Hres|congruence].
+  - apply N.eqb_neq in E. split; [congruence|]. intros _. destruct Hres as [Hr Hd]. split; [exact Hr|].
+    split; intros H.
+    + subst r. now rewrite N.eqb_refl in Hd.
+    + apply N.eqb_neq in H. now rewrite H in Hd.
+Qed.
+
+(* on a publish-once slot an object that was destructed is not the one stored *)
+Lemma P_conc_destructed_not_stored infos progs sched i :
+  i < length infos -> (forall p, In p progs -> Forall (once_op i) p) ->
+  let c := crun (cinit infos progs) sched in
+  forall u th r made dead d, nth_error (g_thr c) u = Some th -> In (RG i r made dead) (c_res th) ->
+    In d dead -> d <> slot c i.
+Proof.
+  intros Hi Hp c u th r made dead d Hth Hin Hd.
+  destruct (P_conc_objects infos progs sched u th i r made dead Hth Hin) as [H0 H1].
+  destruct (N.eq_dec made 0) as [E|E]; [rewrite (H0 E) in Hd; destruct Hd|].
+  destruct (H1 E) as (Hr & Hsame & Hdiff).
+  destruct (N.eq_dec r made) as [E2|E2]; [rewrite (Hsame E2) in Hd; destruct Hd|].
+  rewrite (Hdiff E2) in Hd. destruct (snd (nth i infos (0%N, false))); [|destruct Hd].
+  destruct Hd as [<-|[]].
+  pose proof (P_conc_agreement infos progs sched i Hi Hp u th (RG i r made dead) Hth Hin eq_refl Hr) as A.
+  cbn [res_val] in A. cbv zeta in A. fold c in A. congruence.
+Qed.
+
+(* non-vacuity: three threads, two of them race to install their value, all agree *)
+Lemma conc_example :
+  let c := crun (cinit [(5%N, true)] [[CT 0 0xa1%N 0%N]; [CG 0]; [CG 0; CT 0 0xb2%N 0%N]])
+                [2; 1; 2; 1; 2; 1; 2; 1; 2; 1; 2; 0; 1; 0; 2; 1; 0; 0; 1; 1; 1; 2; 2; 2; 2; 2; 2; 1; 1] in
+  c_all_done c = true /\ slot c 0 = mkobj 5 2 1 /\
+  map c_res (g_thr c) = [[RT 0 0xa1%N (mkobj 5 2 1)];
+                         [RG 0 (mkobj 5 2 1) (mkobj 5 1 1) [mkobj 5 1 1]];
+                         [RT 0 0xb2%N (mkobj 5 2 1); RG 0 (mkobj 5 2 1) (mkobj 5 2 1) []]].
+Proof. vm_compute. repeat split. Qed.
